@@ -755,6 +755,27 @@ func (r *run) submit(op map[string]any, ln *Line) {
 			}
 		}
 	}
+	if b(op, "relay") {
+		// the (invalid) request arrives in the relayed shape: a registered intermediate - any present record of another key -
+		// has re-wrapped registration info for the request's key and nonce
+		cur := r.state()
+		for _, m := range r.cfg.CertKeys {
+			if m == fs.K || !cur.Nodes[m].Present || cur.Nodes[m].Srv == 0 {
+				continue
+			}
+			src, err := w.NodeSideKeySource(m)
+			if err != nil {
+				continue
+			}
+			regInfo := &types.WrappingRegistrationFlowInfo{CertificatePublicKeyPkix: w.EnsureCertKey(fs.K).Pkix, Nonce: w.NonceBytes(fs.Nonce)}
+			if ct, err := nodeenrollment.EncryptMessage(w.Ctx, regInfo, src); err == nil {
+				req.RewrappedWrappingRegistrationFlowInfo = ct
+				req.RewrappingKeyId = w.EnsureCertKey(m).KeyId
+				ln.Obs["relayedBy"] = m
+			}
+			break
+		}
+	}
 	opts := w.Opts(
 		nodeenrollment.WithNotBeforeClockSkew(time.Duration(num(op, "sknb"))*gridUnit),
 		nodeenrollment.WithNotAfterClockSkew(time.Duration(num(op, "skna"))*gridUnit),
